@@ -661,6 +661,21 @@ def _exec_faults(plan, sb, rtflite, conv_mod, arg) -> dict:
             os.makedirs(os.path.dirname(targ_abs), exist_ok=True)
             with open(targ_abs, "wb") as fh:
                 fh.write(data)
+        if pre == "symlink" and not os.path.lexists(targ_abs):
+            # the requested path is a symbolic link to a file kept elsewhere (a shared results area, say)
+            os.makedirs(os.path.dirname(targ_abs), exist_ok=True)
+            linked = os.path.join(os.path.dirname(targ_abs), f"linked_{i}.dat")
+            with open(linked, "wb") as fh:
+                fh.write(f"LINKED PRE-EXISTING {i}".encode())
+            os.symlink(linked, targ_abs)
+        if pre == "dir" and not os.path.lexists(targ_abs):
+            # a directory already sits at the requested path
+            os.makedirs(targ_abs, exist_ok=True)
+            with open(os.path.join(targ_abs, "keep.txt"), "wb") as fh:
+                fh.write(b"content of the directory that sits at the target path")
+        if os.path.islink(targ_abs):
+            ev["link_key"] = sb.key_of(os.path.join(os.path.dirname(targ_abs), os.readlink(targ_abs)))
+        ev["target_is_dir"] = os.path.isdir(targ_abs) and not os.path.islink(targ_abs)
         ev["target_pre_state"] = ("exists" if os.path.lexists(targ_abs) else
                                   ("missing_parents" if not os.path.isdir(os.path.dirname(targ_abs)) else "absent"))
         fault = op["fault"]
@@ -794,6 +809,8 @@ def _exec_faults(plan, sb, rtflite, conv_mod, arg) -> dict:
         tk = ev["target_key"]
         ev["target_before"] = before.get(tk)
         ev["target_after"] = after.get(tk)
+        if ev.get("link_key") and ev["target_after"] is not None and ev["target_after"][0] == "l":
+            ev["target_after_eff"] = after.get(ev["link_key"])  # what reading the requested path yields
         ev["xdev"] = sb.xdev_effective
         if collect:
             ev["sites"] = tr.sites
@@ -912,7 +929,7 @@ def judge_event(ev) -> list:
     removed = set(diff["removed"])
     fk = ev["fault"]["kind"]
     fired_any = (bool(ev.get("fired")) or expected_failure(ev) or may_fail(ev) or (fk == "E3" and ev.get("e3_armed"))
-                 or ev.get("natural_ok") is False)
+                 or ev.get("natural_ok") is False or bool(ev.get("target_is_dir")))
 
     def v(cls, **kw):
         d = {"class": cls, "kind": kind, "fault": fk, "fault_mode": ev["fault"].get("mode") or ev["fault"].get("what")
@@ -962,10 +979,16 @@ def judge_event(ev) -> list:
     else:
         if expected_failure(ev) and not ev.get("construct_error"):
             v("failure_swallowed", detail={"fault": ev["fault"]})
-        # success: where did the output go?
-        ta = ev["target_after"]
+        if ev.get("target_is_dir"):
+            # a directory sat at the requested path and the export returned normally: the property does not
+            # say where the output belongs then, so only the temporary-file rules above apply
+            return out
+        # success: where did the output go?  (a target that is still a symbolic link is read through the link)
+        ta = ev.get("target_after_eff") or ev["target_after"]
         anc = _ancestors(tk)
         allowed_new = set(anc) | {tk}
+        if ev.get("link_key"):
+            allowed_new.add(ev["link_key"])
         if kind == "write_rtf":
             if not ev["encoded_sha"]:
                 v("no_encode_observed")
@@ -1391,6 +1414,31 @@ def matrix_jobs(root: int, docs: list) -> list:
                 jobs.append({"idx": idx, "plan": {"recipes": [r], "ops": ops, "xdev": rng.random() < 0.3,
                                                   "recovery": True}, "site_job": None})
                 idx += 1
+    # unusual things at the requested path: a symbolic link to a file kept elsewhere, a directory
+    rng2 = core.rng_for(root, PROP, "matrix-special-targets")
+    for kind in KINDS:
+        fl = [{"kind": "none"},
+              {"kind": "E", "phase": "encode", "u": 0.5, "exc": "RuntimeError", "mode": "call", "k": None},
+              {"kind": "E", "phase": "encode", "u": 0.98, "exc": "OSError", "mode": "callret", "k": None}]
+        if kind != "write_rtf":
+            fl += [{"kind": "E", "phase": "convert", "u": 0.9, "exc": "RuntimeError", "mode": "call", "k": None},
+                   {"kind": "P", "mode": "fail_after_complete", "die": "exit1"},
+                   {"kind": "P", "mode": "fail_before", "die": "code77"},
+                   {"kind": "M", "mode": "raise_after_output"}]
+        for pre in ("symlink", "dir"):
+            for f in fl:
+                for xdev in ((False, True) if (pre == "symlink" and kind != "write_rtf") else (False,)):
+                    tgt = {"name": "sp" + SUFFIX[kind], "style": rng2.choice(["str", "Path", "relative", "tilde"]),
+                           "pre": pre, "missing_parents": 0}
+                    conv = "none" if kind == "write_rtf" else ("duck_bad" if f["kind"] == "M" else "explicit")
+                    op = {"kind": kind, "doc": 0, "target": tgt, "fault": f, "converter": conv,
+                          "res": 1 if kind == "write_html" else 0, "stray": False, "id": 0}
+                    # ... and once more to the same place, fault-free
+                    follow = dict(op, fault={"kind": "none"}, converter="none" if kind == "write_rtf" else "explicit",
+                                  target=dict(tgt, pre="earlier"), id=1, dir_id=0)
+                    jobs.append({"idx": idx, "plan": {"recipes": [r], "ops": [op, follow], "xdev": xdev,
+                                                      "recovery": True}, "site_job": None})
+                    idx += 1
     return jobs
 
 
